@@ -677,6 +677,9 @@ class SyncObj(object):
                     logger.error(
                         'request to switch to unsupported code version (self version: %d, requested version: %d)' %
                         (self.__selfCodeVersion, e.ver))
+                    # Nothing after the switch can be applied by this code: stop here
+                    # (going on would apply the following entries at the wrong positions).
+                    break
 
             if not self.__conf.appendEntriesUseBatch:
                 needSendAppendEntries = True
